@@ -3,7 +3,8 @@ EXTENDS FSSH, Json, IOUtils, FiniteSetsExt, SequencesExt, TLCExt
 CONSTANT ExportMod
 ASSUME TLCSet(2, {})
 InJ(in) == [swap |-> [s \in St |-> in.swap[s]], hop |-> in.hop, kin |-> in.kin]
-StepJ(h) == [pre |-> h.pre, in |-> [t \in Traj |-> InJ(h.in[t])], out |-> h.out, info |-> h.info]
+InfoJ(i) == [tgt |-> i.tgt, accept |-> i.accept, b |-> i.b, D |-> i.D, c |-> i.c, r |-> i.r, m |-> i.m, reset |-> i.reset]
+StepJ(h) == [pre |-> h.pre, in |-> [t \in Traj |-> InJ(h.in[t])], out |-> h.out, info |-> [t \in Traj |-> InfoJ(h.info[t])]]
 \* export a deterministic pseudo-random subset (1 in Mod behaviours) to keep the file small
 Collect == (n = Steps /\ (TLCGet("distinct") % ExportMod = 0)) => TLCSet(2, TLCGet(2) \cup {[h |-> hist, log |-> log]})
 Export == ndJsonSerialize(IOEnv.OUT_FILE, SetToSeq({[steps |-> [k \in 1..Len(x.h) |-> StepJ(x.h[k])], log |-> x.log] : x \in TLCGet(2)}))
